@@ -319,9 +319,22 @@ int main(int argc, char** argv) {
         if r.returncode != 0:
             return True, 'ForthInputBuffer::%s(%d) from pos=%d, length=%d: %s %s' % (method, vals['arg'], vals['pos'], vals['length'], r.stdout.strip(),
                                                                                    ' | '.join(l for l in r.stderr.splitlines() if 'runtime error' in l)[:200]), vals
-        return False, 'native run keeps the buffer invariant: ' + r.stdout.strip(), vals
+        # exact documented outcome, evaluated independently on the replayed values
+        L, P0, A = vals['length'], vals['pos'], vals['arg']
+        if method == 'read':
+            fail, newpos = (A < 0 or A > L - P0), P0 + A
+        elif method == 'seek':
+            fail, newpos = (A < 0 or A > L), A
+        else:
+            fail, newpos = (P0 + A < 0 or P0 + A > L), P0 + A
+        mm = re.search(r'err=(-?\d+) pos=(-?\d+)', r.stdout)
+        gerr, gpos = int(mm.group(1)), int(mm.group(2))
+        if fail != (gerr != 0) or (not fail and gpos != newpos) or (fail and gpos != P0):
+            return True, 'ForthInputBuffer::%s(%d) from pos=%d, length=%d: native run gives %s; documented: %s' % (
+                method, A, P0, L, r.stdout.strip(), 'error, position unchanged' if fail else 'no error, position %d' % newpos), vals
+        return False, 'native run agrees with the documented outcome: ' + r.stdout.strip(), vals
     return mdischarge(m, 'ForthInputBuffer::%s' % method, obls, [('success reachable', err == 0), ('error reachable', err != 0)],
-                      timeout_ms=60000, replay=replay, extra=dict(bounds='all int64 arguments, length <= 2^40'))
+                      timeout_ms=60000, replay=replay, prefer=[length <= 64, arg >= -200, arg <= 200], extra=dict(bounds='all int64 arguments, length <= 2^40'))
 
 
 def jobs(tier):
